@@ -252,6 +252,77 @@ def clause6_target(ctx, P):
            "the target (e.g. '/api') is upgraded like the target itself" % why)
 
 
+def clause9_close_hands_over(ctx, P, cg):
+    """websocket_close() releases the connection only; the object around it (the peer that create() made when the request line was
+    read) belongs to whoever set up the websocket.  Inside websocket.c a path that calls websocket_close() therefore goes on to
+    tell the owner - s->on_error(s), or the close_received hook - in whatever phase (header lines included) it is taken;
+    a path that closes and just returns leaves a registered peer with a dangling connection"""
+    W = "struct.websocket"
+    keys = {("%s" % W, P.field_index(W, "on_error")): "on_error", (W, P.field_index(W, "close_received")): "close_received"}
+    n = 0
+    bad = None
+    for f in P.own_functions():
+        if f.base != "websocket.c" or f.srcname == "websocket_close":
+            continue
+        if not f.calls("websocket_close"):
+            continue
+        for v in Q.path_views(ctx, P, f):
+            pos = [k for k, i in v.calls("websocket_close")]
+            if not pos:
+                continue
+            n += 1
+            told = any(k > pos[0] and i.op == "call" and not i.callee and cg.icall_field(f, i) in keys for k, i in v.insts())
+            no_hook = v.has_atom(lambda a, p: a[0] == "cmp" and a[3] == ("null",) and a[2][0] == "load" and a[2][1][0] == "field" and
+                                 a[2][1][3] == "close_received" and Q._poleq(a, p))
+            if not told and not no_hook:
+                bad = bad or (f, v)
+    ctx.ob("C13.1 R-OWN", P.fn("websocket.c:websocket_close"), "close-is-followed-by-telling-the-owner", bad is None and n >= 2,
+           ("%s() calls websocket_close() and returns without s->on_error(s) or the close hook: the connection is released, the peer "
+            "created for it stays registered with a dangling connection pointer (other peers' walks and the shutdown sequence reach it)" %
+            bad[0].srcname) if bad else "%d closing path(s) in websocket.c hand over to the owner" % n, witness=bad[1].witness() if bad else None)
+
+
+def clause10_early_guards(ctx, P):
+    """on the request line of a handler with a create() hook nothing of the handler is installed yet (clause 5): until
+    read_start_line() has created the object, the two parser events that can follow the URL in the same chunk - a header field, or
+    the end of an EMPTY header block - must hit a refusing guard; otherwise 'GET /api/jet/ HTTP/1.1\n\r\n' is a complete,
+    successfully parsed request for which a peer is created and which nobody answers"""
+    f = P.fn("http_connection.c:on_url")
+    NEED = ("on_header_field", "on_headers_complete")
+
+    def refusing(name):
+        g = P.functions.get(name)
+        if g is None:
+            return False
+        rs = [v.ret_const() for v in Q.path_views(ctx, P, g)]
+        return bool(rs) and all(r is not None and r != 0 for r in rs)
+    n = 0
+    bad = None
+    for v in Q.path_views(ctx, P, f):
+        if v.ret_const() != 0:
+            continue
+        deferred = v.has_atom(lambda a, p: a[0] == "cmp" and a[3] == ("null",) and a[2][0] == "load" and a[2][1][0] == "field" and
+                              a[2][1][3] == "create" and not Q._poleq(a, p))
+        if not deferred:
+            continue
+        n += 1
+        got = {}
+        for _, i in v.insts():
+            if i.op == "store":
+                d = P.term(f, i.a[1])
+                if d[0] == "field" and d[2] == "struct.http_parser_settings":
+                    got[d[3]] = P.term(f, i.a[0])
+        for slot in NEED:
+            t = got.get(slot)
+            if not (t is not None and t[0] == "func" and refusing(t[1])):
+                bad = bad or (v, slot)
+    ctx.ob("C13.5 R-ORDER", f, "early-guards-cover-header-and-end-of-headers", bad is None and n > 0,
+           ("on_url() defers the handler's callbacks but leaves parser_settings.%s without a refusing guard: a request line chunk that "
+            "also carries %s is parsed to the end, a peer is created for a request that is already over, and nothing answers or closes" %
+            (bad[1], "a header" if bad[1] == "on_header_field" else "the end of an empty header block")) if bad else
+           "%d deferred path(s) install both guards" % n, witness=bad[0].witness() if bad else None)
+
+
 def clause7_error_handlers(ctx, P, cg):
     """every transport error handler (the function a buffered socket calls on a read/write error or an over-long line)
     releases the connection on EVERY path - in whatever protocol phase the error arrives"""
@@ -349,5 +420,7 @@ def run(ctx):
         clause6_target(ctx, P)
         clause7_error_handlers(ctx, P, cg)
         clause8_accepted_fd(ctx, P, cg)
+        clause9_close_hands_over(ctx, P, cg)
+        clause10_early_guards(ctx, P)
         from .c12 import clause5_handshake
         clause5_handshake(ctx, P, cg)
